@@ -378,6 +378,18 @@ func doWorker() int {
 			rule := res.Fails[0].Rule
 			// the shrunk plan must stay on the same side of the known-findings list
 			kn0 := kf.classify(plan, res)
+			if kn0 != "" {
+				// a listed finding this worker has already written a replay for:
+				// counted, not minimised again
+				again := false
+				for _, v := range s.Violations {
+					again = again || v.Known == kn0
+				}
+				if again {
+					s.KnownMet++
+					continue
+				}
+			}
 			minp, runs := minimise(plan, rule, func(c *sim.Plan, r *sim.RunResult) bool { return kf.classify(c, r) == kn0 })
 			s.MinimiseRun += runs
 			mres, mtrace, _ := execPlan(minp)
@@ -558,6 +570,11 @@ func doLeader() int {
 	for i := 0; i < *workers; i++ {
 		c := exec.Command(self, "-prop", *prop, "-tier", *tier, "-seed", fmt.Sprint(*seed), "-worker", fmt.Sprint(i), "-workdir", dir,
 			"-budget", budget.String(), "-replays", *replays, "-known", *known, "-runs", fmt.Sprint(*maxRuns), "-sites", *sites)
+		if os.Getenv("GOMAXPROCS") == "" {
+			// one simulated task runs at a time: more threads per worker only
+			// oversubscribe the cores with collector work
+			c.Env = append(os.Environ(), "GOMAXPROCS=2")
+		}
 		sb := &strings.Builder{}
 		c.Stdout, c.Stderr = sb, sb
 		if err := c.Start(); err != nil {
